@@ -292,15 +292,15 @@ Proof.
 Qed.
 
 (* ParseBTreeV1Node on a file that holds node_header n followed by body: everything up to the key loop *)
-Lemma parse_node_hdr cdims ndims n (body pre suf : list N) addr :
+Lemma parse_node_hdr rp cdims ndims n (body pre suf : list N) addr :
   addr = blen pre -> addr + 24 <= MAXINT64 ->
-  parse_node (pre ++ node_header n ++ body ++ suf) addr 8 ndims cdims
+  parse_node rp (pre ++ node_header n ++ body ++ suf) addr 8 ndims cdims
   = if wrap16 n =? 0 then Ok (mk_bnode 1 0 (wrap16 n) U64MAX U64MAX [] [])
     else match read_bytes_at ((pre ++ node_header n) ++ body ++ suf) (addr + 24)
                              (wrap16 n * (8 + 8 * N.of_nat ndims + 8) + (8 + 8 * N.of_nat ndims)) with
          | None => Err
          | Some data =>
-             r <- parse_entries (N.to_nat (wrap16 n)) 0 (wrap16 (wrap16 n + 1)) ndims 8 cdims data 0;;
+             r <- parse_entries (N.to_nat (wrap16 n)) 0 (key_slots rp (wrap16 n)) ndims 8 cdims data 0;;
              Ok (mk_bnode 1 0 (wrap16 n) U64MAX U64MAX (fst r) (snd r))
          end.
 Proof.
@@ -318,17 +318,21 @@ Proof.
   rewrite Hw. rewrite (app_assoc pre (node_header n) (body ++ suf)). reflexivity.
 Qed.
 
-Lemma parse_node_leaf cdims es (f pre suf : list N) addr :
+Lemma parse_node_leaf rp cdims es (f pre suf : list N) addr :
   all_pos cdims = true -> Forall (fun e => entry_ok (length cdims) e = true) es ->
-  es <> [] -> N.of_nat (length es) < 65535 ->
+  es <> [] -> N.of_nat (length es) <= index_capacity rp ->
   f = pre ++ serialize_leaf (length cdims) es ++ suf -> addr = blen pre ->
   addr + blen (serialize_leaf (length cdims) es) <= MAXINT64 ->
-  parse_node f addr 8 (length cdims) cdims
+  parse_node rp f addr 8 (length cdims) cdims
   = Ok (mk_bnode 1 0 (N.of_nat (length es)) U64MAX U64MAX
                  (map (key_of cdims) es ++ [last_key cdims]) (map w_addr es)).
 Proof.
   intros Hp He Hne Hn Hf Ha Hm.
   rewrite blen_serialize_leaf in Hm by auto.
+  assert (Hn' : N.of_nat (length es) < 65536 /\ N.of_nat (length es) < key_slots rp (N.of_nat (length es))).
+  { unfold index_capacity, MAX_ENTRIES, key_slots in *. destruct rp; [lia|].
+    split; [lia|]. unfold wrap16. rewrite N.mod_small; lia. }
+  destruct Hn' as [Hn16 Hks].
   set (n := N.of_nat (length es)) in *.
   assert (Hn0 : n <> 0) by (destruct es; [congruence|unfold n; cbn [length]; lia]).
   set (body := flat_map enc_entry es ++ enc_key 0 0 (repeat U64MAX (length cdims))).
@@ -349,7 +353,6 @@ Proof.
   rewrite (read_bytes_at_app (pre ++ node_header n) body suf _ _ S1 S2 S3 S4).
   unfold n. rewrite Nat2N.id.
   rewrite (parse_entries_enc cdims (repeat U64MAX (length cdims)) es body [] []); auto.
-  4:{ fold n. unfold wrap16. rewrite N.mod_small by lia. lia. }
   - apply repeat_length.
   - apply Forall_forall. intros x Hx. apply repeat_spec in Hx. subst x. unfold U64MAX. lia.
   - unfold body. cbn [app]. now rewrite app_nil_r.
@@ -357,15 +360,43 @@ Qed.
 
 (* ------------------------------------------------------------------ (i) index round trip *)
 
-Lemma index_pre_spec cdims es eof : index_pre cdims es eof = true ->
+Lemma index_wf_spec cdims es eof : index_wf cdims es eof = true ->
   es <> [] /\ Forall (fun e => entry_ok (length cdims) e = true) es /\ distinct_coords es = true /\
-  N.of_nat (length es) < 65535 /\ all_pos cdims = true /\
+  all_pos cdims = true /\
   eof + blen (serialize_leaf (length cdims) es) <= MAXINT64.
 Proof.
-  unfold index_pre. rewrite !andb_true_iff, negb_true_iff, Nat.eqb_neq, N.ltb_lt, N.leb_le, forallb_forall.
-  intros [[[[[H1 H2] H3] H4] H5] H6]. repeat split; auto.
+  unfold index_wf. rewrite !andb_true_iff, negb_true_iff, Nat.eqb_neq, N.leb_le, forallb_forall.
+  intros [[[[H1 H2] H3] H5] H6]. repeat split; auto.
   - destruct es; [cbn in H1; congruence|discriminate].
   - apply Forall_forall. auto.
+Qed.
+
+Lemma index_pre_spec rp cdims es eof : index_pre rp cdims es eof = true ->
+  es <> [] /\ Forall (fun e => entry_ok (length cdims) e = true) es /\ distinct_coords es = true /\
+  N.of_nat (length es) <= index_capacity rp /\ all_pos cdims = true /\
+  eof + blen (serialize_leaf (length cdims) es) <= MAXINT64.
+Proof.
+  unfold index_pre. rewrite andb_true_iff, N.leb_le. intros [Hw Hn].
+  destruct (index_wf_spec _ _ _ Hw) as (H1 & H2 & H3 & H4 & H5). repeat split; auto.
+Qed.
+
+(* WriteToFile on a list it accepts: one leaf at the end of file *)
+Lemma write_index_st_ok rp dim es f eof :
+  Forall (fun e => entry_ok dim e = true) es -> es <> [] ->
+  (rp = true -> N.of_nat (length es) <= MAX_ENTRIES) ->
+  let buf := serialize_leaf dim (sort_entries es) in
+  write_index_st rp dim es f eof = (write_at f eof buf, wrap64 (eof + blen buf), Ok eof).
+Proof.
+  intros He Hne Hcap buf. unfold write_index_st.
+  replace (forallb (fun e => Nat.eqb (length (w_coord e)) dim) es) with true.
+  2:{ symmetry. apply forallb_forall. intros e Hin. apply Nat.eqb_eq.
+      rewrite Forall_forall in He. apply (entry_ok_spec _ _ (He e Hin)). }
+  cbn [negb]. destruct es as [|e0 er]; [congruence|].
+  replace (rp && (MAX_ENTRIES <? N.of_nat (length (e0 :: er)))) with false.
+  2:{ symmetry. destruct rp; [|reflexivity]. cbn [andb]. apply N.ltb_ge. auto. }
+  cbv zeta. fold buf.
+  unfold alloc. replace (blen buf =? 0) with false; [reflexivity|].
+  symmetry. apply N.eqb_neq. unfold buf. rewrite blen_serialize_leaf by (apply sort_entries_Forall; auto). lia.
 Qed.
 
 Lemma blen_serialize_sorted dim es : Forall (fun e => entry_ok dim e = true) es ->
@@ -383,28 +414,28 @@ Qed.
 Lemma serialize_leaf_nonempty dim es : serialize_leaf dim es <> [].
 Proof. unfold serialize_leaf, node_header, SIG_TREE. discriminate. Qed.
 
-Theorem index_roundtrip_at cdims es f eof :
-  index_pre cdims es eof = true ->
+(* the round trip from the facts it uses (distinct_coords is not among them: it is the condition under which the
+   model's insertion sort and Go's sort.Slice agree, see Model/ChunkIndex.v) *)
+Theorem index_roundtrip_core rp cdims es f eof :
+  es <> [] -> Forall (fun e => entry_ok (length cdims) e = true) es ->
+  N.of_nat (length es) <= index_capacity rp -> all_pos cdims = true ->
+  eof + blen (serialize_leaf (length cdims) es) <= MAXINT64 ->
   let f' := write_at f eof (serialize_leaf (length cdims) (sort_entries es)) in
-    write_index (length cdims) es f eof = Ok (f', eof + blen (serialize_leaf (length cdims) es), eof) /\
-    read_index f' eof 8 cdims = COk (map (expected_entry cdims) (sort_entries es)).
+    write_index rp (length cdims) es f eof = Ok (f', eof + blen (serialize_leaf (length cdims) es), eof) /\
+    read_index rp f' eof 8 cdims = COk (map (expected_entry cdims) (sort_entries es)).
 Proof.
-  intros Hpre. destruct (index_pre_spec _ _ _ Hpre) as (Hne & He & Hd & Hn & Hp & Hm).
+  intros Hne He Hn Hp Hm.
   set (dim := length cdims) in *.
   set (buf := serialize_leaf dim (sort_entries es)).
   assert (Hbl : blen buf = blen (serialize_leaf dim es)) by (apply blen_serialize_sorted; auto).
   fold dim. fold buf. cbv zeta. split.
-  - unfold write_index.
-    replace (forallb (fun e => Nat.eqb (length (w_coord e)) dim) es) with true.
-    2:{ symmetry. apply forallb_forall. intros e Hin. apply Nat.eqb_eq.
-        rewrite Forall_forall in He. apply (entry_ok_spec _ _ (He e Hin)). }
-    cbn [negb]. destruct es as [|e0 er]; [congruence|]. cbv zeta. fold dim. fold buf.
-    unfold alloc. replace (blen buf =? 0) with false.
-    2:{ symmetry. apply N.eqb_neq. rewrite Hbl, blen_serialize_leaf by auto. lia. }
+  - unfold write_index. rewrite write_index_st_ok; auto.
+    2:{ intros ->. exact Hn. }
+    cbv zeta. fold buf. cbn [st_result].
     rewrite Hbl. f_equal. f_equal. f_equal. unfold wrap64. apply N.mod_small. unfold MAXINT64 in Hm. lia.
   - destruct (write_at_shape f buf eof (serialize_leaf_nonempty _ _)) as (pre & suf & Hw & Hpl).
     unfold read_index.
-    rewrite (parse_node_leaf cdims (sort_entries es) (write_at f eof buf) pre suf eof); auto.
+    rewrite (parse_node_leaf rp cdims (sort_entries es) (write_at f eof buf) pre suf eof); auto.
     + unfold collect_all_chunks. cbn [n_level n_keys n_children collect N.eqb].
       now rewrite combine_keys.
     + apply sort_entries_Forall; auto.
@@ -413,71 +444,112 @@ Proof.
     + fold dim. fold buf. rewrite Hbl. exact Hm.
 Qed.
 
-Theorem index_roundtrip cdims es f eof :
-  index_pre cdims es eof = true ->
-  exists f',
-    write_index (length cdims) es f eof = Ok (f', eof + blen (serialize_leaf (length cdims) es), eof) /\
-    read_index f' eof 8 cdims = COk (map (expected_entry cdims) (sort_entries es)).
+Theorem index_roundtrip_at rp cdims es f eof :
+  index_pre rp cdims es eof = true ->
+  let f' := write_at f eof (serialize_leaf (length cdims) (sort_entries es)) in
+    write_index rp (length cdims) es f eof = Ok (f', eof + blen (serialize_leaf (length cdims) es), eof) /\
+    read_index rp f' eof 8 cdims = COk (map (expected_entry cdims) (sort_entries es)).
 Proof.
-  intros H. destruct (index_roundtrip_at cdims es f eof H) as [P1 P2].
+  intros Hpre. destruct (index_pre_spec _ _ _ _ Hpre) as (Hne & He & Hd & Hn & Hp & Hm).
+  apply index_roundtrip_core; auto.
+Qed.
+
+Theorem index_roundtrip_gen rp cdims es f eof :
+  index_pre rp cdims es eof = true ->
+  exists f',
+    write_index rp (length cdims) es f eof = Ok (f', eof + blen (serialize_leaf (length cdims) es), eof) /\
+    read_index rp f' eof 8 cdims = COk (map (expected_entry cdims) (sort_entries es)).
+Proof.
+  intros H. destruct (index_roundtrip_at rp cdims es f eof H) as [P1 P2].
   eexists. split; [exact P1|exact P2].
+Qed.
+
+(* the repaired code: every well-formed list of at most MaxChunkBTreeEntries = 65535 entries *)
+Theorem index_roundtrip cdims es f eof :
+  index_wf cdims es eof = true -> N.of_nat (length es) <= MAX_ENTRIES ->
+  exists f',
+    write_index true (length cdims) es f eof = Ok (f', eof + blen (serialize_leaf (length cdims) es), eof) /\
+    read_index true f' eof 8 cdims = COk (map (expected_entry cdims) (sort_entries es)).
+Proof.
+  intros Hw Hn. apply index_roundtrip_gen. unfold index_pre. rewrite Hw. cbn [andb index_capacity].
+  apply N.leb_le. exact Hn.
+Qed.
+
+(* ... and every longer list is refused by the writer before it allocates or writes: the state (file, end of file)
+   is the one the call was given.  No hypothesis on the entries. *)
+Theorem index_refused_unchanged dim es f eof :
+  MAX_ENTRIES < N.of_nat (length es) ->
+  write_index_st true dim es f eof = (f, eof, Err).
+Proof.
+  intros Hn. unfold write_index_st.
+  destruct (negb (forallb (fun e => Nat.eqb (length (w_coord e)) dim) es)); [reflexivity|].
+  destruct es as [|e0 er]; [reflexivity|].
+  replace (MAX_ENTRIES <? N.of_nat (length (e0 :: er))) with true by (symmetry; apply N.ltb_lt; exact Hn).
+  reflexivity.
+Qed.
+
+(* both together: the writer/reader pair is total on well-formed input - round trip or clean refusal *)
+Theorem index_total cdims es f eof :
+  index_wf cdims es eof = true ->
+  (N.of_nat (length es) <= MAX_ENTRIES /\
+   exists f',
+     write_index_st true (length cdims) es f eof = (f', eof + blen (serialize_leaf (length cdims) es), Ok eof) /\
+     read_index true f' eof 8 cdims = COk (map (expected_entry cdims) (sort_entries es)))
+  \/
+  (MAX_ENTRIES < N.of_nat (length es) /\ write_index_st true (length cdims) es f eof = (f, eof, Err)).
+Proof.
+  intros Hw. destruct (N.le_gt_cases (N.of_nat (length es)) MAX_ENTRIES) as [Hn|Hn].
+  - left. split; [exact Hn|].
+    destruct (index_roundtrip cdims es f eof Hw Hn) as (f' & P1 & P2).
+    exists f'. split; [|exact P2].
+    unfold write_index in P1. destruct (write_index_st true (length cdims) es f eof) as [[g e] [r| |]];
+      cbn [st_result] in P1; try discriminate. now inversion P1.
+  - right. split; [exact Hn|]. now apply index_refused_unchanged.
 Qed.
 
 (* ------------------------------------------------------------------ the count field: where the round trip ends *)
 
-(* 65536 entries (any multiple of 65536): the 16-bit count is written as 0, the reader sees an empty leaf and
-   returns NO chunk, without an error - every chunk of the dataset reads back as zeros *)
+(* BEFORE 18c9d53 (rep = false): 65536 entries (any multiple of 65536): the 16-bit count is written as 0, the reader
+   sees an empty leaf and returns NO chunk, without an error - every chunk of the dataset reads back as zeros *)
 Theorem index_count_wraps_refuted cdims es f eof :
   Forall (fun e => entry_ok (length cdims) e = true) es ->
   es <> [] -> wrap16 (N.of_nat (length es)) = 0 ->
   eof + 24 <= MAXINT64 ->
   exists f' eof',
-    write_index (length cdims) es f eof = Ok (f', eof', eof) /\
-    read_index f' eof 8 cdims = COk [] /\ map (expected_entry cdims) (sort_entries es) <> [].
+    write_index false (length cdims) es f eof = Ok (f', eof', eof) /\
+    read_index false f' eof 8 cdims = COk [] /\ map (expected_entry cdims) (sort_entries es) <> [].
 Proof.
   intros He Hne Hw Hm.
   set (dim := length cdims) in *.
   set (buf := serialize_leaf dim (sort_entries es)).
   exists (write_at f eof buf), (wrap64 (eof + blen buf)). split; [|split].
-  - unfold write_index.
-    replace (forallb (fun e => Nat.eqb (length (w_coord e)) dim) es) with true.
-    2:{ symmetry. apply forallb_forall. intros e Hin. apply Nat.eqb_eq.
-        rewrite Forall_forall in He. apply (entry_ok_spec _ _ (He e Hin)). }
-    cbn [negb]. destruct es as [|e0 er]; [congruence|]. cbv zeta. fold dim. fold buf.
-    unfold alloc. replace (blen buf =? 0) with false; [reflexivity|].
-    symmetry. apply N.eqb_neq. unfold buf. rewrite blen_serialize_leaf by (apply sort_entries_Forall; auto). lia.
+  - unfold write_index. rewrite write_index_st_ok by (auto; intro; discriminate). reflexivity.
   - destruct (write_at_shape f buf eof (serialize_leaf_nonempty _ _)) as (pre & suf & Hws & Hpl).
     assert (Hfile : write_at f eof buf = pre ++ node_header (N.of_nat (length (sort_entries es))) ++
               (flat_map enc_entry (sort_entries es) ++ enc_key 0 0 (repeat U64MAX dim)) ++ suf).
     { rewrite Hws. unfold buf, serialize_leaf. now rewrite <- !app_assoc. }
     unfold read_index. rewrite Hfile.
-    rewrite (parse_node_hdr cdims (length cdims)) by auto.
+    rewrite (parse_node_hdr false cdims (length cdims)) by auto.
     rewrite sort_entries_length, Hw. cbn [N.eqb]. reflexivity.
   - intros E. apply map_eq_nil in E. apply (sort_entries_nonempty es Hne E).
 Qed.
 
-(* 65535 entries: the count fits, but the reader sizes its key slice with EntriesUsed+1 in uint16 = 0 and panics
-   storing the first key *)
+(* BEFORE 18c9d53 (rep = false): 65535 entries: the count fits, but the reader sizes its key slice with EntriesUsed+1
+   in uint16 = 0 and panics storing the first key *)
 Theorem index_65535_refuted cdims es f eof :
   all_pos cdims = true -> Forall (fun e => entry_ok (length cdims) e = true) es ->
   N.of_nat (length es) = 65535 ->
   eof + blen (serialize_leaf (length cdims) es) <= MAXINT64 ->
   exists f' eof',
-    write_index (length cdims) es f eof = Ok (f', eof', eof) /\
-    read_index f' eof 8 cdims = CPanic.
+    write_index false (length cdims) es f eof = Ok (f', eof', eof) /\
+    read_index false f' eof 8 cdims = CPanic.
 Proof.
   intros Hp He Hn Hm.
   assert (Hne : es <> []) by (intros ->; cbn in Hn; lia).
   set (dim := length cdims) in *.
   set (buf := serialize_leaf dim (sort_entries es)).
   exists (write_at f eof buf), (wrap64 (eof + blen buf)). split.
-  - unfold write_index.
-    replace (forallb (fun e => Nat.eqb (length (w_coord e)) dim) es) with true.
-    2:{ symmetry. apply forallb_forall. intros e Hin. apply Nat.eqb_eq.
-        rewrite Forall_forall in He. apply (entry_ok_spec _ _ (He e Hin)). }
-    cbn [negb]. destruct es as [|e0 er]; [congruence|]. cbv zeta. fold dim. fold buf.
-    unfold alloc. replace (blen buf =? 0) with false; [reflexivity|].
-    symmetry. apply N.eqb_neq. unfold buf. rewrite blen_serialize_leaf by (apply sort_entries_Forall; auto). lia.
+  - unfold write_index. rewrite write_index_st_ok by (auto; intro; discriminate). reflexivity.
   - destruct (write_at_shape f buf eof (serialize_leaf_nonempty _ _)) as (pre & suf & Hws & Hpl).
     pose proof (sort_entries_Forall _ _ He) as Hs.
     pose proof (sort_entries_length es) as Hsl.
@@ -488,9 +560,9 @@ Proof.
     assert (Hfile : write_at f eof buf = pre ++ node_header (N.of_nat (length SS)) ++ body ++ suf).
     { rewrite Hws. unfold buf, serialize_leaf. fold SS. unfold body. now rewrite <- !app_assoc. }
     unfold read_index. rewrite Hfile.
-    rewrite (parse_node_hdr cdims (length cdims)) by (auto; unfold MAXINT64 in *; lia).
+    rewrite (parse_node_hdr false cdims (length cdims)) by (auto; unfold MAXINT64 in *; lia).
     rewrite Hsl, Hn. change (wrap16 65535) with 65535. cbn [N.eqb Pos.eqb].
-    change (wrap16 (65535 + 1)) with 0.
+    change (key_slots false 65535) with 0.
     assert (Hb : blen body = 65535 * (8 + 8 * N.of_nat dim + 8) + (8 + 8 * N.of_nat dim)).
     { unfold body. rewrite blen_app, blen_enc_key, repeat_length.
       rewrite (blen_enc_entries dim) by (apply entries_dim; auto). rewrite Hsl, Hn. lia. }
@@ -569,16 +641,16 @@ Proof.
 Qed.
 
 Theorem index_lookup cdims es f eof :
-  index_pre cdims es eof = true ->
+  index_wf cdims es eof = true -> N.of_nat (length es) <= MAX_ENTRIES ->
   NoDup (map (sc_of cdims) es) ->
   exists f' chunks,
-    write_index (length cdims) es f eof = Ok (f', eof + blen (serialize_leaf (length cdims) es), eof) /\
-    read_index f' eof 8 cdims = COk chunks /\
+    write_index true (length cdims) es f eof = Ok (f', eof + blen (serialize_leaf (length cdims) es), eof) /\
+    read_index true f' eof 8 cdims = COk chunks /\
     (forall e, In e es -> lookup_chunk (length cdims) chunks (sc_of cdims e) = Some (w_addr e, w_nbytes e)) /\
     (forall c, ~ In c (map (sc_of cdims) es) -> lookup_chunk (length cdims) chunks c = None).
 Proof.
-  intros Hpre Hnd. destruct (index_roundtrip cdims es f eof Hpre) as (f' & Hw & Hr).
-  destruct (index_pre_spec _ _ _ Hpre) as (Hne & He & _).
+  intros Hpre Hcap Hnd. destruct (index_roundtrip cdims es f eof Hpre Hcap) as (f' & Hw & Hr).
+  destruct (index_wf_spec _ _ _ Hpre) as (Hne & He & _).
   exists f', (map (expected_entry cdims) (sort_entries es)). split; [exact Hw|]. split; [exact Hr|].
   pose proof (sort_entries_perm es) as HP.
   assert (Hl : Forall (fun e => length (w_coord e) = length cdims) (sort_entries es)).
@@ -656,19 +728,19 @@ Proof.
   apply IH; auto.
 Qed.
 
-Theorem read_chunked_file_correct f root (es : list wentry) :
+Theorem read_chunked_file_correct rp f root (es : list wentry) :
   vol dims esz <= MAX_CHUNK * 1024 -> esz <= 4294967295 ->
-  (exists S, Permutation S es /\ read_index f root 8 cdims = COk (map (expected_entry cdims) S)) ->
+  (exists S, Permutation S es /\ read_index rp f root 8 cdims = COk (map (expected_entry cdims) S)) ->
   Permutation (map w_coord es) (map (chunk_key cdims) (all_chunk_coords dims cdims)) ->
   Forall (entry_stored f) es ->
-  read_chunked_file f root 8 dims cdims esz = COk data.
+  read_chunked_file rp f root 8 dims cdims esz = COk data.
 Proof.
   intros Hvol Hesz (S & HP & Hri) Hkeys Hst.
   destruct Hshape as (Hne & Hc & Hpd & Hpc & Hez).
   unfold read_chunked_file. replace (Nat.ltb (length cdims) (length dims)) with false
     by (symmetry; apply Nat.ltb_ge; lia).
   unfold read_index in Hri.
-  destruct (parse_node f root 8 (length cdims) cdims) as [nd| |]; try discriminate.
+  destruct (parse_node rp f root 8 (length cdims) cdims) as [nd| |]; try discriminate.
   assert (Hpp : 0 < prodN dims) by (apply prodN_pos; exact Hpd).
   assert (Hv : vol dims esz = prodN dims * esz) by apply vol_prod.
   unfold MAX_CHUNK in *.
@@ -754,29 +826,3 @@ Proof.
   rewrite (write_at_before f buf a off n Ha Hb). exact Hr.
 Qed.
 
-(* (iii) for every rank, grid, element size and data: once the chunk loop has left every chunk's bytes at the address
-   recorded for it, below the address the index is allocated at, writing the index and reading with the model reader
-   returns the data.  (Filters: none - filterPipeline == nil / identity.) *)
-Theorem chunked_end_to_end_partial dims cdims esz data (es : list wentry) f eof :
-  shape_ok dims cdims esz -> lenN data = vol dims esz ->
-  vol dims esz <= MAX_CHUNK * 1024 -> esz <= 4294967295 ->
-  index_pre cdims es eof = true ->
-  Permutation (map w_coord es) (map (chunk_key cdims) (all_chunk_coords dims cdims)) ->
-  Forall (fun e => entry_stored dims cdims esz data f e /\ w_addr e + w_nbytes e <= eof) es ->
-  exists f',
-    write_index (length dims) es f eof = Ok (f', eof + blen (serialize_leaf (length cdims) es), eof) /\
-    read_chunked_file f' eof 8 dims cdims esz = COk data.
-Proof.
-  intros Hs Hd Hv He Hpre Hk Hst.
-  destruct (index_roundtrip_at cdims es f eof Hpre) as (Hw & Hr).
-  assert (Hc : length cdims = length dims) by (destruct Hs as (_ & Hc & _); exact Hc).
-  eexists. split; [rewrite <- Hc; exact Hw|].
-  apply (read_chunked_file_correct dims cdims esz data Hs Hd _ eof es Hv He).
-  - exists (sort_entries es). split; [apply sort_entries_perm|exact Hr].
-  - exact Hk.
-  - (* the index write keeps the chunk bytes *)
-    eapply Forall_impl; [|exact Hst]. intros e [[Hvs Hrd] Hlt]. split; [exact Hvs|].
-    unfold validate_size, MAX_CHUNK in Hvs. apply andb_true_iff in Hvs as [Hz Hle].
-    apply negb_true_iff, N.eqb_neq in Hz. apply N.leb_le in Hle.
-    apply read_bytes_at_write_at_before; [exact Hlt|exact Hz|lia|exact Hrd].
-Qed.
